@@ -61,11 +61,13 @@ type aNode struct {
 	entries []aEntry
 	anchor  string
 	target  string // alias name
+	ref     *aNode // the node the alias is bound to: the LATEST definition of the name before the alias
 }
 
 type aEntry struct {
 	key   string
 	merge []string // non-nil: this entry is `<<: *a` (len 1, single) or `<<: [*a, *b]`
+	refs  []*aNode // the nodes those names are bound to at this point of the text
 	list  bool
 	v     *aNode
 }
@@ -76,6 +78,7 @@ type c13Gen struct {
 	mapAnch []string
 	allAnch []string
 	merges  int
+	redefs  int
 	overlap bool
 	aliases int
 }
@@ -100,7 +103,8 @@ func (g *c13Gen) value(depth int) *aNode {
 	r := g.r
 	if len(g.allAnch) > 0 && r.IntN(4) == 0 {
 		g.aliases++
-		return &aNode{kind: "alias", target: g.allAnch[r.IntN(len(g.allAnch))]}
+		name := g.allAnch[r.IntN(len(g.allAnch))]
+		return &aNode{kind: "alias", target: name, ref: g.anchors[name]}
 	}
 	if depth <= 0 || r.IntN(2) == 0 {
 		return g.scalar()
@@ -143,6 +147,9 @@ func (g *c13Gen) mapNode(depth int, allowMerge bool) *aNode {
 			e.merge = []string{g.mapAnch[r.IntN(len(g.mapAnch))]}
 			e.list = r.IntN(5) == 0
 		}
+		for _, name := range e.merge {
+			e.refs = append(e.refs, g.anchors[name])
+		}
 		n.entries = append(n.entries, e)
 		g.merges++
 	}
@@ -159,7 +166,15 @@ func (g *c13Gen) doc() *aNode {
 	nd := 2 + r.IntN(3)
 	for i := 0; i < nd; i++ {
 		name := fmt.Sprintf("a%d", i+1)
+		if i >= 1 && r.IntN(3) == 0 {
+			// an anchor name defined again: aliases after this point bind to the new definition
+			name = fmt.Sprintf("a%d", 1+r.IntN(i))
+			g.redefs++
+		}
 		var d *aNode
+		// the new value of a re-used name must not refer to that name (yaml.v3: "anchor value contains itself")
+		savedAll, savedMap := g.allAnch, g.mapAnch
+		g.allAnch, g.mapAnch = without(g.allAnch, name), without(g.mapAnch, name)
 		switch r.IntN(6) {
 		case 0:
 			d = g.scalar()
@@ -168,9 +183,26 @@ func (g *c13Gen) doc() *aNode {
 		default:
 			d = g.mapNode(1, true)
 		}
+		g.allAnch, g.mapAnch = savedAll, savedMap
 		d.anchor = name
 		g.anchors[name] = d
-		g.allAnch = append(g.allAnch, name)
+		known := false
+		for _, x := range g.allAnch {
+			if x == name {
+				known = true
+			}
+		}
+		if !known {
+			g.allAnch = append(g.allAnch, name)
+		}
+		// the name is usable in a merge only while its latest definition is a map
+		var ma []string
+		for _, x := range g.mapAnch {
+			if x != name {
+				ma = append(ma, x)
+			}
+		}
+		g.mapAnch = ma
 		if d.kind == "map" {
 			g.mapAnch = append(g.mapAnch, name)
 		}
@@ -270,7 +302,7 @@ func (g *c13Gen) resolve(n *aNode, q c13Quirks) *ref.V {
 	case "scalar":
 		return n.val.Copy()
 	case "alias":
-		return g.resolve(g.anchors[n.target], q)
+		return g.resolve(n.ref, q)
 	case "seq":
 		s := &ref.V{K: ref.Seq, A: []*ref.V{}}
 		for _, it := range n.items {
@@ -295,9 +327,8 @@ func (g *c13Gen) resolve(n *aNode, q c13Quirks) *ref.V {
 		}
 		// the merged-in map: earlier list entries win (or later, under the quirk)
 		merged := &ref.V{K: ref.Map, M: []ref.KV{}}
-		srcs := e.merge
-		for _, name := range srcs {
-			src := g.resolve(g.anchors[name], q)
+		for _, srcNode := range e.refs {
+			src := g.resolve(srcNode, q)
 			for _, kv := range src.M {
 				if _, have := merged.Get(kv.K); have && !q.listLastWins {
 					continue
@@ -398,6 +429,9 @@ func (p c13) Run(w *mon.Worker, idx int) mon.Result {
 	}
 	res.Nontrivial = g.merges >= 1 || g.aliases >= 2
 	res.Tags = append(res.Tags, fmt.Sprintf("merges:%d", min(g.merges, 4)), fmt.Sprintf("aliases:%d", min(g.aliases, 5)))
+	if g.redefs > 0 {
+		res.Tags = append(res.Tags, "anchor_redefined")
+	}
 
 	type route struct {
 		name   string
@@ -606,15 +640,15 @@ func c13Walk(v *ref.V, path []any) (string, *ref.V) {
 // lookup finds key in a map node of the generator tree with the given traversal semantics.
 func (g *c13Gen) lookup(n *aNode, key string, q c13Quirks) *aNode {
 	for n != nil && n.kind == "alias" {
-		n = g.anchors[n.target]
+		n = n.ref
 	}
 	if n == nil || n.kind != "map" {
 		return nil
 	}
 	fromMerge := func(e aEntry) *aNode {
 		var found *aNode
-		for _, name := range e.merge {
-			if r := g.lookup(g.anchors[name], key, q); r != nil {
+		for _, srcNode := range e.refs {
+			if r := g.lookup(srcNode, key, q); r != nil {
 				if found == nil || q.listLastWins {
 					found = r
 				}
@@ -658,7 +692,7 @@ func (g *c13Gen) walkAST(root *aNode, path []any, qt, qv c13Quirks) (string, *re
 	cur := root
 	for _, p := range path {
 		for cur.kind == "alias" {
-			cur = g.anchors[cur.target]
+			cur = cur.ref
 		}
 		switch cur.kind {
 		case "map":
@@ -684,4 +718,14 @@ func (g *c13Gen) walkAST(root *aNode, path []any, qt, qv c13Quirks) (string, *re
 		}
 	}
 	return "value", g.resolve(cur, qv)
+}
+
+func without(xs []string, x string) []string {
+	var out []string
+	for _, y := range xs {
+		if y != x {
+			out = append(out, y)
+		}
+	}
+	return out
 }
